@@ -974,6 +974,29 @@ theorem solve_run (H : solve rnd thr fuel prune g = .ok out) (P : RewVecs K → 
   · exact Or.inl ⟨h1, h3, h2⟩
   · exact Or.inr ⟨h1, by omega, h3⟩
 
+/-- the `er` vector stays non-negative (state rewards are non-negative by `check_game`; `p ≥ 0`
+on the conditioned rows of the probabilistic states) -/
+theorem solve_er_nonneg
+    (hp : ∀ s < g.owners.size, g.owners.getD s .prob = .prob → ∀ t ∈ out.nodes.getD s [], 0 ≤ t.p)
+    (H : solve rnd thr fuel prune g = .ok out) : ∀ j, 0 ≤ out.rewards.getD j 0 := by
+  have hr := (solve_checked H).1
+  have := (solve_run H (fun x => x.er.size = g.owners.size ∧ ∀ j, 0 ≤ x.er.getD j 0)
+    ⟨(init_sized H).1, hr⟩ (fun x y d hx h => by
+      refine sweepRewFrom_inv (fun x => x.er.size = g.owners.size ∧ ∀ j, 0 ≤ x.er.getD j 0)
+        (List.range g.owners.size) ?_ (x, 0) (y, d) hx h
+      intro a s t hs ⟨hn, ha⟩ hst
+      have hv := vec_updAcc Comp.er a s t
+      change (updAcc a s t).1.er = a.1.er.setIfInBounds s t.1 at hv
+      rw [hv]
+      refine ⟨by simpa using hn, fun j => ?_⟩
+      rw [getD_setIfInBounds]
+      split_ifs with hc
+      · obtain ⟨e, m, p⟩ := t
+        rw [stepRew_fst rnd g.owners g.rewards out.nodes out.probs a.1 s e m p hst]
+        exact Brew_nonneg g.rewards hr _ s (hp s (List.mem_range.mp hs)) ha
+      · exact ha j)).1
+  exact this.2
+
 end Run
 
 /-! ### conditioning produces `NodesWF` lists -/
@@ -1011,5 +1034,103 @@ theorem nodesWF_of_condition {prune : Bool} {g : Game K} (hg : Shape g)
         obtain ⟨w, hw, rfl⟩ := List.mem_map.mp hx
         exact le_of_lt (hpos w (List.mem_filter.mp hw).1)
     · left; exact hnil
+
+/-! ### the rounding function of the `Rat` instance is monotone -/
+
+theorem roundHalfEven_near (q : Rat) :
+    ((roundHalfEven q : Int) : Rat) - 1/2 ≤ q ∧ q ≤ ((roundHalfEven q : Int) : Rat) + 1/2 := by
+  have h1 := Rat.floor_le q
+  have h2 := Rat.lt_floor_add_one q
+  unfold roundHalfEven
+  simp only []
+  push_cast at h2 ⊢
+  split_ifs with ha hb hc
+  · constructor <;> linarith
+  · constructor <;> linarith
+  · have : q - (q.floor : Rat) = 1/2 := le_antisymm (not_lt.mp ha) (not_lt.mp hb)
+    constructor <;> linarith
+  · have : q - (q.floor : Rat) = 1/2 := le_antisymm (not_lt.mp ha) (not_lt.mp hb)
+    constructor <;> linarith
+
+theorem roundHalfEven_mono {x y : Rat} (h : x ≤ y) : roundHalfEven x ≤ roundHalfEven y := by
+  by_contra hlt
+  have hlt : roundHalfEven y + 1 ≤ roundHalfEven x := by omega
+  have hx := (roundHalfEven_near x).1
+  have hy := (roundHalfEven_near y).2
+  have hc : ((roundHalfEven y : Int) : Rat) + 1 ≤ ((roundHalfEven x : Int) : Rat) := by
+    exact_mod_cast hlt
+  have hxy : x = y := le_antisymm h (by linarith)
+  subst hxy
+  omega
+
+/-- Python's `round(x, digits)` on rationals (scaled integer) is monotone -/
+theorem roundRat_mono (d : Nat) (x y : Rat) (h : x ≤ y) : roundRat d x ≤ roundRat d y := by
+  unfold roundRat
+  apply roundHalfEven_mono
+  exact mul_le_mul_of_nonneg_right h (by positivity)
+
+/-! ### concrete data for the non-vacuity examples of C02 / C14 -/
+
+deriving instance DecidableEq for RewVecs
+
+namespace Examples
+open CR.Examples
+
+/-- the conditioned lists of the 7-state game `g7` (pruning on): states 2, 4, 6 are emptied -/
+def g7nodes : Array (List (Tr Rat)) :=
+  #[[tr "alfa" 0 1], [tr "" 1 3], [], [tr "gamma" 0 5], [], [tr "" 1 5], []]
+
+set_option synthInstance.maxSize 400 in
+/-- a concrete `.ok` run, with the loop running (3 sweeps) -/
+theorem g7_run_aux : ∃ out, solve (roundRat 6) thr 1000 true g7 = .ok out ∧
+    ((out.rewards, out.rewMinReach, out.probMinRew), (out.itRew, out.probs),
+        (out.nodes, out.finalStrat)) =
+      ((#[2, 2, 0, 2, 0, 0, 0], #[2, 2, 0, 2, 0, 0, 0], #[1, 1, 0, 1, 0, 1, 0]),
+        (3, #[3/4, 3/4, 1/2, 1, 0, 1, 0]),
+        (g7nodes, #[some ["alfa"], none, none, some ["gamma"], none, none, none])) :=
+  exists_ok_of_toOption_map (by unfold solve solveReach; rw [g7_ord]; decide +kernel)
+
+/-- the reported vectors of that run -/
+def g7vecs : RewVecs Rat :=
+  { er := #[2, 2, 0, 2, 0, 0, 0], ermr := #[2, 2, 0, 2, 0, 0, 0], pmr := #[1, 1, 0, 1, 0, 1, 0] }
+
+/-- the reported reachability probabilities of that run -/
+def g7probs : Array Rat := #[3/4, 3/4, 1/2, 1, 0, 1, 0]
+
+/-- the same run, field by field -/
+theorem g7_run : ∃ out, solve (roundRat 6) thr 1000 true g7 = .ok out ∧
+    out.rewards = g7vecs.er ∧ out.rewMinReach = g7vecs.ermr ∧ out.probMinRew = g7vecs.pmr ∧
+    out.itRew = 3 ∧ out.probs = g7probs ∧ out.nodes = g7nodes ∧
+    out.finalStrat = #[some ["alfa"], none, none, some ["gamma"], none, none, none] := by
+  obtain ⟨out, H, h⟩ := g7_run_aux
+  simp only [Prod.mk.injEq] at h
+  obtain ⟨⟨h1, h2, h3⟩, ⟨h4, h5⟩, h6, h7⟩ := h
+  exact ⟨out, H, h1, h2, h3, h4, h5, h6, h7⟩
+
+/-- the reported vectors are reproduced by one more sweep, with change 0 -/
+theorem g7_sweep :
+    sweepRew (roundRat 6) g7.owners g7.rewards g7nodes g7probs g7vecs = .ok (g7vecs, 0) := by
+  decide +kernel
+
+/-- the conditioned lists of the 6-state game `g6` (pruning on); state 1 is Player 2's -/
+def g6nodes : Array (List (Tr Rat)) :=
+  #[[tr "a" 0 1, tr "b" 0 2, tr "c" 0 3], [tr "x" 0 4, tr "y" 0 2], [tr "" 1 4], [tr "" 1 4],
+    [tr "" 1 4], []]
+
+/-- the reported vectors of `solve (roundRat 6) thr 1000 true g6` -/
+def g6vecs : RewVecs Rat :=
+  { er := #[1, 0, 0, 1, 0, 0], ermr := #[1, 0, 0, 1, 0, 0], pmr := #[1, 1, 1, 1, 1, 0] }
+
+def g6probs : Array Rat := #[1/2, 1/2, 1/2, 1/2, 1, 0]
+
+/-- `NodesWF` holds for these conditioned lists -/
+theorem g7_wf : NodesWF g7.owners g7nodes := by
+  intro s hs ho
+  have hs' : s < 7 := hs
+  have : s = 0 ∨ s = 1 ∨ s = 2 ∨ s = 3 ∨ s = 4 ∨ s = 5 ∨ s = 6 := by omega
+  rcases this with rfl | rfl | rfl | rfl | rfl | rfl | rfl <;>
+    simp [g7, g7nodes, tr] at ho ⊢
+
+end Examples
 
 end CR.Rew
